@@ -251,11 +251,11 @@ func (e *Engine) Structural() []*Obligation {
 				names = append(names, bareName(e.funcKey(f)))
 			}
 			sort.Strings(names)
-			add("termination.recursion@{"+strings.Join(names, ",")+"}", []string{"C13"}, false, e.pos(comp[0].Pos()),
+			add("termination.recursion@{"+strings.Join(names, ",")+"}", e.termProps(comp...), false, e.pos(comp[0].Pos()),
 				"functions call each other recursively and no decreasing measure is declared")
 		}
 	}
-	add("termination.no_recursion@package", []string{"C13"}, recursive == 0, "leader/", fmt.Sprintf("%d recursive call-graph component(s)", recursive))
+	add("termination.no_recursion@package", []string{"C13", "C15", "C17"}, recursive == 0, "leader/", fmt.Sprintf("%d recursive call-graph component(s)", recursive))
 
 	// 2. every loop blocks or has a variant
 	for _, f := range fns {
@@ -270,7 +270,7 @@ func (e *Engine) Structural() []*Obligation {
 			li := loops[h]
 			fr := &Frame{fn: f}
 			if u.canUnroll(fr, li) {
-				add(fmt.Sprintf("termination.loop@%s#%d", e.funcKey(f), li.ordinal), []string{"C13"}, true, e.pos(firstPos(h)), "constant trip count (unrolled)")
+				add(fmt.Sprintf("termination.loop@%s#%d", e.funcKey(f), li.ordinal), e.termProps(f), true, e.pos(firstPos(h)), "constant trip count (unrolled)")
 				continue
 			}
 			spec := (*LoopSpec)(nil)
@@ -280,14 +280,14 @@ func (e *Engine) Structural() []*Obligation {
 			free := nonBlockingCycle(li)
 			switch {
 			case countedLoop(li):
-				add(fmt.Sprintf("termination.loop@%s#%d", e.funcKey(f), li.ordinal), []string{"C13"}, true, e.pos(firstPos(h)), "counted loop: an index stepped by a positive constant towards a bound the loop does not change")
+				add(fmt.Sprintf("termination.loop@%s#%d", e.funcKey(f), li.ordinal), e.termProps(f), true, e.pos(firstPos(h)), "counted loop: an index stepped by a positive constant towards a bound the loop does not change")
 			case !free:
-				add(fmt.Sprintf("termination.loop@%s#%d", e.funcKey(f), li.ordinal), []string{"C13"}, true, e.pos(firstPos(h)), "every cycle blocks on a channel operation or sleep")
+				add(fmt.Sprintf("termination.loop@%s#%d", e.funcKey(f), li.ordinal), e.termProps(f), true, e.pos(firstPos(h)), "every cycle blocks on a channel operation or sleep")
 			case spec != nil && spec.Decreases != nil:
 				// the SMT obligation termination.decreases carries the proof
-				add(fmt.Sprintf("termination.loop@%s#%d", e.funcKey(f), li.ordinal), []string{"C13"}, true, e.pos(firstPos(h)), "variant declared (proved separately)")
+				add(fmt.Sprintf("termination.loop@%s#%d", e.funcKey(f), li.ordinal), e.termProps(f), true, e.pos(firstPos(h)), "variant declared (proved separately)")
 			default:
-				add(fmt.Sprintf("termination.loop@%s#%d", e.funcKey(f), li.ordinal), []string{"C13"}, false, e.pos(firstPos(h)), "loop has a cycle without a blocking operation and no variant")
+				add(fmt.Sprintf("termination.loop@%s#%d", e.funcKey(f), li.ordinal), e.termProps(f), false, e.pos(firstPos(h)), "loop has a cycle without a blocking operation and no variant")
 			}
 		}
 	}
@@ -590,4 +590,31 @@ func countedLoop(li *loopInfo) bool {
 		}
 	}
 	return false
+}
+
+// termProps: the properties a termination obligation counts for: C13 always, and the properties that speak about
+// boundedness or crashes (as for panics) where one of the functions involved serves them.
+func (e *Engine) termProps(fns ...*ssa.Function) []string {
+	props := []string{"C13"}
+	seen := map[string]bool{"C13": true}
+	for _, f := range fns {
+		g := f
+		for g.Parent() != nil {
+			g = g.Parent()
+		}
+		fc := e.cs.Funcs[e.funcKey(g)]
+		if fc == nil {
+			continue
+		}
+		for _, t := range fc.Tags {
+			switch t {
+			case "C04", "C09", "C11", "C15", "C16", "C17":
+				if !seen[t] {
+					seen[t] = true
+					props = append(props, t)
+				}
+			}
+		}
+	}
+	return props
 }
